@@ -38,7 +38,8 @@ INDEX_COLS = {'npstartA', 'npstartB', 'npoutA', 'npoutB', 'npstartA_merge', 'nps
 def gen(rng, tier):
     from e2_world import world as W
     from e2_world import catalog as C
-    world = W.gen_world(rng)
+    big = tier == 'thorough' and rng.random() < 0.5
+    world = W.gen_world(rng, max_slabs=6 if big else 4, max_halos=12 if big else 6, max_parts=8 if big else 4)
     inds = [s['index'] for s in world['slabs']]
     kind = rng.choice(['zdir', 'list', 'list', 'list'])
     order = list(inds)
